@@ -12,6 +12,7 @@ import (
 	"github.com/PowerDNS/lightningstream/lmdbenv/header"
 	"github.com/PowerDNS/lightningstream/lmdbenv/limitscanner"
 	"github.com/PowerDNS/lightningstream/utils"
+	"github.com/PowerDNS/lightningstream/utils/verifhook"
 	"github.com/PowerDNS/lmdb-go/lmdb"
 	"github.com/sirupsen/logrus"
 )
@@ -163,6 +164,7 @@ func (s *Sweeper) sweep(ctx context.Context) error {
 			})
 			if limitReached {
 				l.Debug("Sweep limit reached, continuing after pause")
+				verifhook.Yield(s.name, "sweep.slice_end", dbiName)
 				// Give the app some room to get a write lock before continuing
 				if err := utils.SleepContext(ctx, s.conf.ReleaseDuration); err != nil {
 					return err
